@@ -58,3 +58,9 @@ func installHook(m *mp, emit func(trace.M)) {
 }
 
 func removeHook() { pscheduling.VerifSchedTrace = nil }
+
+var suspended func(pscheduling.VerifSchedEvent)
+
+// suspendHook / resumeHook: a scheduling simulation run by another controller inside the pass must not show up as decisions of the pass
+func suspendHook() { suspended, pscheduling.VerifSchedTrace = pscheduling.VerifSchedTrace, nil }
+func resumeHook()  { pscheduling.VerifSchedTrace = suspended }
